@@ -153,16 +153,26 @@ def _h_ctx_ops(sx):
                      detail=lambda m: {"history": tag})
         elif kind == "set":
             v = newval()
-            with ctx.use_with_user_mode():
-                setattr(ctx, op[1], v)
+            try:
+                with ctx.use_with_user_mode():
+                    setattr(ctx, op[1], v)
+            except Exception as e:      # noqa - setting an attribute never fails (it shadows / creates)
+                et = type(e).__name__
+                sx.check(False, "C13.set-creates-or-shadows", detail=lambda m: {"history": tag, "raised": et})
+                return {"history": tag, "raised": et}
             ref.frames[0]["vars"][op[1]] = v
         elif kind == "set-same":
             # assign the very object that is visible already (e.g. context.profile = context.default_profile): the
             # current scope gets its own entry all the same
             has, val = ref.lookup(op[1])
             if has:
-                with ctx.use_with_user_mode():
-                    setattr(ctx, op[1], val)
+                try:
+                    with ctx.use_with_user_mode():
+                        setattr(ctx, op[1], val)
+                except Exception as e:      # noqa
+                    et = type(e).__name__
+                    sx.check(False, "C13.set-creates-or-shadows", detail=lambda m: {"history": tag, "raised": et})
+                    return {"history": tag, "raised": et}
                 ref.frames[0]["vars"][op[1]] = val
         elif kind == "setroot":
             v = newval()
